@@ -25,6 +25,17 @@ def int_bits(ty):
 
 # ------------------------------------------------------------------ values
 
+import itertools
+_UID = itertools.count(1)
+def new_uid(): return next(_UID)
+
+def place_key(p):
+    """identity of a place that survives state copies (uids are copied with the object)"""
+    if isinstance(p, Cell): return ('cell', p.uid)
+    if isinstance(p, FieldPlace): return ('field', getattr(p.obj, 'uid', id(p.obj)), p.name)
+    if isinstance(p, IndexPlace): return ('index', getattr(p.seq, 'uid', id(p.seq)), p.idx)
+    return ('obj', id(p))
+
 class Top:
     def __init__(self, reason, sp=None):
         self.reason = reason; self.sp = sp
@@ -36,14 +47,14 @@ UNIT = Unit()
 
 class StructV:
     def __init__(self, path, fields, ty=None):
-        self.path = path; self.fields = fields; self.ty = ty or path
+        self.path = path; self.fields = fields; self.ty = ty or path; self.uid = new_uid()
     def __repr__(self): return '%s{%s}' % (self.path, ', '.join('%s: %r' % kv for kv in self.fields.items()))
 
 class EnumV:
     """variant None => symbolic (sym is the atom naming it)"""
     def __init__(self, path, variant, fields=None, sym=None, ty=None):
         self.path = path; self.variant = variant; self.fields = fields or {}; self.sym = sym; self.ty = ty or path
-        self.payload_cache = {}
+        self.payload_cache = {}; self.uid = new_uid()
     def __repr__(self):
         if self.variant is None: return '%s::?%s' % (self.path, show(self.sym))
         return '%s::%s%r' % (self.path, self.variant, self.fields)
@@ -51,7 +62,7 @@ class EnumV:
 class SeqV:
     """Vec<T> / [T; N] / [T] / String / str.  elem == 'u8' => byte segments."""
     def __init__(self, elem, segs=None, name=None):
-        self.elem = elem; self.segs = list(segs or []); self.stores = []; self.name = name
+        self.elem = elem; self.segs = list(segs or []); self.stores = []; self.name = name; self.uid = new_uid()
     def is_bytes(self): return self.elem == 'u8'
     def __repr__(self): return 'Seq<%s>%s%s' % (self.elem, show_segs(self.segs), (' stores=%r' % self.stores) if self.stores else '')
 
@@ -91,7 +102,7 @@ class SliceV:
 # ------------------------------------------------------------------ places
 
 class Cell:
-    def __init__(self, v): self.v = v
+    def __init__(self, v): self.v = v; self.uid = new_uid()
     def get(self): return self.v
     def set(self, v): self.v = v
     def __repr__(self): return 'Cell(%r)' % (self.v,)
@@ -602,9 +613,32 @@ class Interp:
                 return self.top('join of different enum variants of ' + first.path)
             if all(isinstance(v, TupleV) for v in vs) and all(len(v.items) == len(first.items) for v in vs):
                 return TupleV([join([(c, v.items[i]) for c, v in vals]) for i in range(len(first.items))])
-            if all(isinstance(v, RefV) for v in vs): return first
+            if all(isinstance(v, RefV) for v in vs):
+                # the same place in every branch (place identities survive the per-branch state copies)
+                if all(place_key(v.place) == place_key(first.place) for v in vs): return first
+                # shared references to branch-local temporaries / different views: join what they refer to
+                if not any(v.mut for v in vs):
+                    j = join([(c, v.place.get()) for c, v in vals])
+                    if not isinstance(j, Top): return RefV(Cell(j))
+                return self.top('join of references to different places')
+            if all(isinstance(v, (SliceV, SeqV)) for v in vs) and any(isinstance(v, SliceV) for v in vs):
+                base = lambda v: v.seq if isinstance(v, SliceV) else v
+                if all(isinstance(base(v), SeqV) and base(v).uid == base(first).uid and not base(v).stores and base(v).segs == base(first).segs for v in vs):
+                    lo = join([(c, v.lo if isinstance(v, SliceV) else ZERO) for c, v in vals])
+                    his = [(c, (v.hi if v.hi is not None else seqlen(v.seq.segs)) if isinstance(v, SliceV) else seqlen(v.segs)) for c, v in vals]
+                    hi = join(his)
+                    return SliceV(base(first), lo, hi)
+                return self.top('join of views of different sequences')
             if all(isinstance(v, DynV) for v in vs) and all(v.name == first.name for v in vs): return first
-            if all(isinstance(v, (ClosureV, IterV, RangeV)) for v in vs): return first
+            if all(isinstance(v, RangeV) for v in vs):
+                if all((v.hi is None) == (first.hi is None) for v in vs):
+                    return RangeV(join([(c, v.lo) for c, v in vals]), None if first.hi is None else join([(c, v.hi) for c, v in vals]))
+                return self.top('join of open and closed ranges')
+            if all(isinstance(v, ClosureV) for v in vs) and all(v.d == first.d for v in vs): return first
+            if all(isinstance(v, IterV) for v in vs):
+                if all(v.kind == first.kind and v.by_ref == first.by_ref and len(v.maps) == len(first.maps) and v.enum == first.enum
+                       and getattr(self.sink_target(v.seq), 'uid', None) == getattr(self.sink_target(first.seq), 'uid', 0) for v in vs): return first
+                return self.top('join of different iterators')
             for v in vs:
                 if isinstance(v, Top): return v
             return self.top('join of %s' % ', '.join(type(v).__name__ for v in vs))
@@ -723,6 +757,7 @@ class Interp:
                     self.bind(s['pat'], v.fields[s['field']], FieldPlace(v, s['field']))
                 elif isinstance(v, EnumV):
                     if v.variant is None:
+                        if s['pat'].get('k') == 'Wild': continue
                         self.bind(s['pat'], self.enum_payload(v, pat.get('variant'), s['field']))
                     else:
                         self.bind(s['pat'], v.fields[s['field']], FieldPlace(v, s['field']))
@@ -744,6 +779,13 @@ class Interp:
         if k == 'Constant':
             if is_term(v): return cmp('eq', v, C(pat['value'])) if isinstance(pat['value'], int) else ('call', 'patconst', v)
             return self.top_cond('constant pattern on %r' % (v,))
+        if k == 'Range':
+            if is_term(v) and (pat.get('lo') is not None or pat.get('lo_inf')) and (pat.get('hi') is not None or pat.get('hi_inf')):
+                c = TRUE
+                if pat.get('lo') is not None: c = b_and(c, cmp('le', C(pat['lo']), v))
+                if pat.get('hi') is not None: c = b_and(c, cmp('le', v, C(pat['hi'])) if pat.get('inclusive') else cmp('lt', v, C(pat['hi'])))
+                return c
+            return self.top_cond('range pattern on %r' % (v,))
         if k == 'Variant':
             if isinstance(v, EnumV):
                 if v.variant is not None:
@@ -758,8 +800,15 @@ class Interp:
                         if var['name'] == pat['variant']: return cmp('eq', dt, C(var['discr']))
                 c = ('isvar', v.sym, pat['variant'])
                 if v.path == 'core::option::Option' and pat['variant'] == 'None': c = bnot(('isvar', v.sym, 'Some'))
-                if getattr(v, 'some_cond', None) is not None: c = v.some_cond if pat['variant'] == 'Some' else bnot(v.some_cond)
+                adt_ = self.f.adt(v.path)
+                if adt_ and adt_.get('kind') == 'Enum':
+                    names_ = [vv['name'] for vv in adt_['variants']]
+                    sym.ENUM_VARIANTS[v.sym] = len(names_)
+                    # a two-variant enum has one test: the second variant is the negation of the first
+                    if len(names_) == 2 and pat['variant'] == names_[1]: c = bnot(('isvar', v.sym, names_[0]))
+                if getattr(v, 'some_cond', None) is not None: c = v.some_cond if pat['variant'] in ('Some', 'Ok') else bnot(v.some_cond)
                 for s in pat['subs']:
+                    if s['pat'].get('k') == 'Wild': continue
                     sc = self.matches(s['pat'], self.enum_payload(v, pat['variant'], s['field']))
                     c = b_and(c, sc)
                 return c
@@ -871,6 +920,11 @@ class Interp:
                 ty = norm_ty(e['ty'])
                 m = re.match(r'^\[u8; (\d+)\]$', ty)
                 if m: return SeqV('u8', [('int', C(b), 1) for b in v['bytes']])
+                m = re.match(r'^\[(u8|u16|u32|u64|usize|i8|i16|i32|i64|isize); (\d+)\]$', ty)
+                if m:
+                    w = int_bits(m.group(1)) // 8; n_ = int(m.group(2)); bs = bytes(v['bytes'])
+                    if len(bs) == w * n_:
+                        return SeqV(m.group(1), [('elem', C(int.from_bytes(bs[i * w:(i + 1) * w], 'little', signed=m.group(1).startswith('i')))) for i in range(n_)])
                 b = int_bits(ty)
                 if b: return C(int.from_bytes(bytes(v['bytes']), 'little'))
             if 'zst' in v:
@@ -956,7 +1010,11 @@ class Interp:
             fb = 64
         else:
             fb = int_bits(frm) or (1 if frm == 'bool' else None) or (32 if frm == 'char' else None)
-        if isinstance(v, Top): return v
+        if isinstance(v, Top):
+            tb0 = int_bits(to); fb0 = int_bits(frm)
+            if tb0 and fb0 and tb0 < fb0:
+                self.casts.append({'from': frm, 'to': to, 'term': None, 'sp': e.get('sp'), 'fits': False, 'top': v.reason, 'mac': e.get('mac'), 'fn': self.frame().d, 'facts': [], 'expr': _pe(e['arg'])})
+            return v
         tb = int_bits(to)
         if not is_term(v) or tb is None:
             return self.top('cast %s -> %s' % (frm, to), e)
@@ -982,8 +1040,13 @@ class Interp:
         return self.top('unary ' + e['op'], e)
 
     def arith(self, op, a, b, ty, e):
-        if isinstance(a, Top): return a
-        if isinstance(b, Top): return b
+        if isinstance(a, Top) or isinstance(b, Top):
+            tp = a if isinstance(a, Top) else b
+            if op in ('Add', 'Sub', 'Mul') and ty and int_bits(norm_ty(ty)):
+                self.visited_arith.add(e.get('sp') if isinstance(e, dict) else None)
+                self.arith_sites.append({'op': op, 'ty': norm_ty(ty), 'term': None, 'top': tp.reason, 'sp': e.get('sp') if isinstance(e, dict) else None, 'fn': self.frame().d,
+                                         'lo': 0, 'hi': 0, 'facts': [], 'expr': _pe(e) if isinstance(e, dict) else ''})
+            return tp
         if isinstance(a, RefV): a = a.place.get()
         if isinstance(b, RefV): b = b.place.get()
         if not (is_term(a) and is_term(b)):
